@@ -57,7 +57,7 @@ pub async fn yield_now() {
     simrt::rt::sched_point("yield_now").await
 }
 
-/// zinoma has no timers; a sleep is a scheduling point (duration ignored).
-pub async fn sleep(_dur: std::time::Duration) {
-    simrt::rt::sched_point("sleep").await
+/// A sleep ends when the scheduler lets its (abstract) timer expire.
+pub async fn sleep(dur: std::time::Duration) {
+    simrt::timer(&format!("sleep({:?})", dur)).await
 }
